@@ -55,7 +55,49 @@ def make_case(ctx, idx):
     prof = gen.profile("c08", locals=["e1", "e2", "a1", "x.y"], prefixes=["ex", "ex2", "other", "ex_1"],
                        ns_uris=["http://ex.org/", "http://ex.org/sub/", "urn:x:"], attr_locals=["tag", "v"],
                        uris=("http://ex.org/e1", "http://ex.org/e2", "urn:x:a1", "http://ex.org/sub/x.y", "http://x.org/y"))
-    return {"mode": "program", "ops": gen.Gen(r, prof).program()}
+    ops = gen.Gen(r, prof).program()
+    if r.random() < 0.4:
+        ops = near_twin(ops, r)
+    return {"mode": "program", "ops": ops}
+
+
+def near_twin(ops, r):
+    """Add a sibling of one identified record (same kind, identifier, container, formal arguments) whose extra values are
+    *near twins* of the original's: the same URI as xsd:anyURI instead of a qualified name, the same text as another kind of
+    literal, the same string under another language tag.  Unification must keep both values apart (union, nothing lost)."""
+    import copy
+    cands = [op for op in ops if op[0] == "rec" and op[3] is not None and op[5]]
+    if not cands:
+        return ops
+    src = r.choice(cands)
+    twin = copy.deepcopy(src[:8])
+    twin[6] = "new_record"
+    twin[7] = "%s_twin" % src[7]
+    extras = []
+    for an, v in twin[5]:
+        k = v["k"]
+        if k == "qn":
+            n = v["name"]
+            uri = ("http://www.w3.org/ns/prov#" + n["local"]) if n["form"] == "prov" else (n["ns"] + n["local"] if n["form"] == "qn" else None)
+            if uri:
+                extras.append([an, {"k": "uri", "v": uri}])
+        elif k == "uri":
+            extras.append([an, {"k": "str", "v": v["v"]}])
+        elif k == "str":
+            extras.append([an, {"k": "lang", "v": v["v"], "lang": "en"}])
+            extras.append([an, {"k": "lit", "v": v["v"], "dt": {"form": "xsd", "local": "token"}}])
+        elif k == "lang":
+            extras.append([an, {"k": "lang", "v": v["v"], "lang": "en-GB" if v["lang"] != "en-GB" else "fr"}])
+        elif k == "int":
+            extras.append([an, {"k": "str", "v": str(v["v"])}])
+            extras.append([an, {"k": "lit", "v": str(v["v"]), "dt": {"form": "xsd", "local": "integer"}}])
+        elif k == "dt":
+            extras.append([an, {"k": "str", "v": v["iso"]}])
+    if not extras:
+        return ops
+    twin[5] = extras
+    pos = ops.index(src) + 1 + r.randint(0, max(0, len(ops) - ops.index(src) - 1))
+    return ops[:pos] + [twin] + ops[pos:]
 
 
 def has_repeats(ordered_doc):
